@@ -87,12 +87,13 @@ Next == \/ \E p \in Prompts, v \in Verdicts : Request(p, v[1], v[2])
 Spec == Init /\ [][Next]_vars
 MCView == <<circuit, failures, sinceFail, cache, inj, consec>>
 (* ------------------------------ P-layer ------------------------------ *)
-Approves(v) == v \in {"EXECUTE", "PERMIT"}
+EApproves(z) == z \in {"EXECUTE", "PERMIT"}      \* the executor permits: it executed, or answered PERMIT
+AApproves(y) == y = "PERMIT"                    \* the assessor permits: the same reading as for the approval token ("only when the assessor permitted")
 GateSatisfied(z, y) ==
-  CASE Logic \in {"and", "unanimous"} -> Approves(z) /\ Approves(y)
-    [] Logic = "or" -> Approves(z) \/ Approves(y)
-    [] Logic = "executor_priority" -> Approves(z) /\ y # "BLOCK"
-    [] Logic = "assessor_priority" -> Approves(y) /\ z # "FAILURE"
+  CASE Logic \in {"and", "unanimous"} -> EApproves(z) /\ AApproves(y)
+    [] Logic = "or" -> EApproves(z) \/ AApproves(y)
+    [] Logic = "executor_priority" -> EApproves(z) /\ y # "BLOCK"
+    [] Logic = "assessor_priority" -> AApproves(y) /\ z # "FAILURE"
     [] OTHER -> FALSE
 TableOK == \A z \in Verdict, y \in Verdict : z # "exception" /\ y # "exception" =>
              /\ (~Gate(z, y).blocked => GateSatisfied(z, y))
